@@ -28,16 +28,24 @@ theorem pmk_ge {raw : Bytes} {k : Nat} (hk : k ≤ 5) (hl : k ≤ raw.length)
 
 /-! ### factored `decode` -/
 
-/-- the provisional cut `next_msg` computed on the part of the buffer that starts at the marker -/
+/-- end of the first complete `SOH 10=…SOH` field, if there is one -/
+def closedAtOf (msg : Bytes) : Option Nat :=
+  match findSub cksumPat msg with
+  | some ci => (match findChar SOH (msg.drop (ci + 1)) with
+      | some e => some (e + (ci + 1) + 1)
+      | none => none)
+  | none => none
+
+/-- the cut `next_msg` computed on the part of the buffer that starts at the marker -/
 def cutOf (msg : Bytes) : Nat :=
   let nextMsg0 := match findSub marker (msg.drop 5) with
     | some i => i + 5
     | none => msg.length
-  match findSub cksumPat msg with
-  | some ci => (match findChar SOH (msg.drop (ci + 1)) with
-      | some e => e + (ci + 1) + 1
-      | none => nextMsg0)
-  | none => nextMsg0
+  (closedAtOf msg).getD nextMsg0
+
+/-- consumed length reported when the cut has fewer than three fields -/
+def fewOf (validIdx : Nat) (msg : Bytes) : Nat :=
+  if (closedAtOf msg).isSome then validIdx + cutOf msg else validIdx
 
 /-- `msg[:next_msg].split(SOH)` without a trailing empty piece -/
 def fieldsOf (encoded : Bytes) : List Bytes :=
@@ -76,9 +84,9 @@ def decodeBody (tbl : Tbl) (rawLen validIdx msgLength : Nat) (encoded : Bytes) (
     else .none parsed
 
 /-- `decode` after the marker was found at `validIdx` and the cut was made -/
-def decodeTail (bs : Bytes) (tbl : Tbl) (rawLen validIdx : Nat) (encoded : Bytes) : DecRes :=
+def decodeTail (bs : Bytes) (tbl : Tbl) (rawLen validIdx few : Nat) (encoded : Bytes) : DecRes :=
   let fields := fieldsOf encoded
-  if fields.length < 3 then .none validIdx else
+  if fields.length < 3 then .none few else
   match fields with
   | f0 :: f1 :: _ =>
     match hdr bs f0 f1 with
@@ -88,8 +96,8 @@ def decodeTail (bs : Bytes) (tbl : Tbl) (rawLen validIdx : Nat) (encoded : Bytes
   | _ => .none validIdx
 
 /-- verbatim copy of the model text after `fields` is computed -/
-def decodeFields (bs : Bytes) (tbl : Tbl) (rawLen validIdx : Nat) (encoded : Bytes) (fields : List Bytes) : DecRes :=
-    if fields.length < 3 then .none validIdx else
+def decodeFields (bs : Bytes) (tbl : Tbl) (rawLen validIdx few : Nat) (encoded : Bytes) (fields : List Bytes) : DecRes :=
+    if fields.length < 3 then .none few else
     match fields with
     | f0 :: f1 :: _ =>
       match splitEq f0 with
@@ -120,14 +128,14 @@ theorem decode_eq0 (bs : Bytes) (tbl : Tbl) (raw : Bytes) :
     decode bs tbl raw =
       match findSub marker raw with
       | none => .none (raw.length - partialMarkerKeep raw)
-      | some v => decodeFields bs tbl raw.length v ((raw.drop v).take (cutOf (raw.drop v)))
+      | some v => decodeFields bs tbl raw.length v (fewOf v (raw.drop v)) ((raw.drop v).take (cutOf (raw.drop v)))
           (fieldsOf ((raw.drop v).take (cutOf (raw.drop v)))) := by
   cases h : findSub marker raw with
   | none => simp only [decode, h]
   | some v => simp only [decode, h]; rfl
 
-theorem decodeFields_eq (bs : Bytes) (tbl : Tbl) (rawLen v : Nat) (enc : Bytes) :
-    decodeFields bs tbl rawLen v enc (fieldsOf enc) = decodeTail bs tbl rawLen v enc := by
+theorem decodeFields_eq (bs : Bytes) (tbl : Tbl) (rawLen v few : Nat) (enc : Bytes) :
+    decodeFields bs tbl rawLen v few enc (fieldsOf enc) = decodeTail bs tbl rawLen v few enc := by
   unfold decodeTail
   generalize fieldsOf enc = fields
   unfold decodeFields
@@ -146,7 +154,7 @@ theorem decode_eq (bs : Bytes) (tbl : Tbl) (raw : Bytes) :
     decode bs tbl raw =
       match findSub marker raw with
       | none => .none (raw.length - partialMarkerKeep raw)
-      | some v => decodeTail bs tbl raw.length v ((raw.drop v).take (cutOf (raw.drop v))) := by
+      | some v => decodeTail bs tbl raw.length v (fewOf v (raw.drop v)) ((raw.drop v).take (cutOf (raw.drop v))) := by
   rw [decode_eq0]
   cases findSub marker raw with
   | none => rfl
@@ -157,11 +165,11 @@ theorem decode_eq (bs : Bytes) (tbl : Tbl) (raw : Bytes) :
 
 /-- a frame that decodes in one buffer decodes to the same message in any buffer that holds at
 least as many bytes after the marker -/
-theorem decodeTail_msg_inv {bs : Bytes} {tbl : Tbl} {L v : Nat} {enc : Bytes} {m : Msg} {n : Nat} {raw : Bytes}
-    (h : decodeTail bs tbl L v enc = .msg m n raw) :
+theorem decodeTail_msg_inv {bs : Bytes} {tbl : Tbl} {L v few : Nat} {enc : Bytes} {m : Msg} {n : Nat} {raw : Bytes}
+    (h : decodeTail bs tbl L v few enc = .msg m n raw) :
     ∃ f0 f1 r ml, fieldsOf enc = f0 :: f1 :: r ∧ 3 ≤ (fieldsOf enc).length ∧ hdr bs f0 f1 = .ok ml ∧
       ml ≤ L - v ∧ n = v + ml ∧ raw = enc ∧
-      ∀ L' v', ml ≤ L' - v' → decodeTail bs tbl L' v' enc = .msg m (v' + ml) enc := by
+      ∀ L' v' few', ml ≤ L' - v' → decodeTail bs tbl L' v' few' enc = .msg m (v' + ml) enc := by
   unfold decodeTail at h
   simp only [] at h
   split at h
@@ -188,7 +196,7 @@ theorem decodeTail_msg_inv {bs : Bytes} {tbl : Tbl} {L v : Nat} {enc : Bytes} {m
               simp only [DecRes.msg.injEq] at h
               obtain ⟨hm, hn, hr⟩ := h
               refine ⟨by omega, hn.symm, hr.symm, ?_⟩
-              intro L' v' hml'
+              intro L' v' few' hml'
               unfold decodeTail
               simp only [hf, hh]
               rw [hf] at hlen
@@ -201,19 +209,21 @@ theorem decodeTail_msg_inv {bs : Bytes} {tbl : Tbl} {L v : Nat} {enc : Bytes} {m
     · cases h
 
 /-- same first two fields, but fewer bytes than the header announces: wait at the marker -/
-theorem decodeTail_short {bs : Bytes} {tbl : Tbl} {L v : Nat} {enc : Bytes} {f0 f1 : Bytes} {r : List Bytes}
-    {ml : Nat} (hf : fieldsOf enc = f0 :: f1 :: r) (hh : hdr bs f0 f1 = .ok ml) (hlt : L - v < ml) :
-    decodeTail bs tbl L v enc = .none v := by
+theorem decodeTail_short {bs : Bytes} {tbl : Tbl} {L v few : Nat} {enc : Bytes} {f0 f1 : Bytes} {r : List Bytes}
+    {ml : Nat} (hf : fieldsOf enc = f0 :: f1 :: r) (hh : hdr bs f0 f1 = .ok ml) (hlt : L - v < ml)
+    (h3 : 3 ≤ (fieldsOf enc).length) :
+    decodeTail bs tbl L v few enc = .none v := by
   unfold decodeTail
+  rw [hf] at h3
   simp only [hf, hh]
   split
-  · rfl
+  · omega
   · unfold decodeBody
     have : ml > L - v := hlt
     simp only [this, if_true]
 
-theorem decodeTail_few {bs : Bytes} {tbl : Tbl} {L v : Nat} {enc : Bytes}
-    (hf : (fieldsOf enc).length < 3) : decodeTail bs tbl L v enc = .none v := by
+theorem decodeTail_few {bs : Bytes} {tbl : Tbl} {L v few : Nat} {enc : Bytes}
+    (hf : (fieldsOf enc).length < 3) : decodeTail bs tbl L v few enc = .none few := by
   unfold decodeTail
   simp only [hf, if_true]
 
